@@ -19,7 +19,7 @@ def sources_for(prop, chk, n, fams=None, post=None):
     for i in range(n):
         fam = fams[i % len(fams)]
         d = os.path.join(chk.scratch, "gen", f"{fam}-{chk.seed}-{i}")
-        if prop in GLYPHS_FORMAT_PROPS and i % 3 == 2:
+        if prop in GLYPHS_FORMAT_PROPS and ((i + i // len(fams)) % 3 == 2 or fam.endswith("-g")):  # rotates through the families over the rounds
             model = families.make(fam, chk.seed, i, overrides={"mapped": 0.0, "vertical": False, "explicit_metrics": False})
             if post:
                 model = post(model, i) or model
